@@ -1166,9 +1166,9 @@ Section Conv.
   Definition import_items_final (may_reorder : bool) (nodes : list bundle) : list bundle :=
     if may_reorder then import_items_order nodes else nodes.
 
-  Definition convert_import_items (c : ctx) (nodes : list bundle) (may_reorder : bool) : M doc :=
+  Definition convert_import_items (fs : fold_style) (c : ctx) (nodes : list bundle) (may_reorder : bool) : M doc :=
     let nodes' := import_items_final may_reorder nodes in
-    l <- lst_process lst_new c nodes' (fun c child =>
+    l <- lst_process (lst_with_fold_style lst_new fs) c nodes' (fun c child =>
            match bk child with
            | KRenamedImportItem => d <- call child (RImportItemRenamed c) ;; ret (Some d)
            | KImportItemPath => d <- call child (RImportItemPath c) ;; ret (Some d)
@@ -1176,7 +1176,7 @@ Section Conv.
            end) ;;
     ret (lst_doc l (mk_ls [44] [40] [41] false false false false false true true false)).
 
-  Definition convert_import (kids : list bundle) (c : ctx) : M doc :=
+  Definition convert_import (fs : fold_style) (kids : list bundle) (c : ctx) : M doc :=
     let divider := match position (fun b => kin (bk b) [KLeftParen; KImportItems]) kids 0 with
                    | Some i => i | None => length kids end in
     let items_part := skipn divider kids in
@@ -1202,7 +1202,7 @@ Section Conv.
         match nodes with
         | [] => ret prefix_doc
         | _ =>
-            d <- convert_import_items c nodes (negb (existsb is_comment_b prefix_part)) ;;
+            d <- convert_import_items fs c nodes (negb (existsb is_comment_b prefix_part)) ;;
             (* a line comment that ends the prefix keeps its line to itself *)
             let ends_with_line_comment :=
               match find (fun b => negb (kind_eqb (bk b) KSpace)) (rev prefix_part) with
@@ -1253,7 +1253,7 @@ Section Conv.
     | KShowRule => convert_show_rule kids c
     | KContextual | KConditional | KWhileLoop | KFuncReturn | KModuleInclude => expr_flow kids c
     | KForLoop => convert_for_loop kids c
-    | KModuleImport => convert_import kids c
+    | KModuleImport => convert_import (get_fold_style c t) kids c
     | KLoopBreak => ret (text [98; 114; 101; 97; 107])
     | KLoopContinue => ret (text [99; 111; 110; 116; 105; 110; 117; 101])
     | _ => panic SBadRequest       (* not an Expr kind: cast() would have failed *)
